@@ -48,7 +48,7 @@ fn c06_q_cfb_chain_dangling() {
     let data = [0u8; 8];
     let far: u32 = kani::any();
     kani::assume(far >= 2 && far != ENDOFCHAIN);
-    let fats = [1u32, far];
+    let fats = [far, ENDOFCHAIN]; // sector 0 links to a sector far beyond the 2 that exist
     let mut s = Sectors::new(4, data.to_vec());
     let mut rd: &[u8] = &[];
     let r = s.get_chain(0, &fats, &mut rd, 0);
